@@ -105,6 +105,26 @@ def opMul (B : Nat) (m : Mode) (c : Coarse) (p : Nat) (lhs rhs : FRepr) : Rounde
 
 /-! ### div (`div.rs`) -/
 
+/-- the re-alignment inside `repr_div` after the first `div_rem` left a remainder: quotient `q`,
+    remainder `r ≠ 0`, exponent `e`; returns the `p`(+1)-digit quotient, the new remainder and exponent.
+    Three cases: `q = 0` (dividend shorter than the divisor), a quotient shorter than `p` digits, and a
+    quotient that is already long enough. -/
+def divAlign (B p : Nat) (b q r e : Int) : Int × Int × Int :=
+  let ddigits := digitsI B b
+  if q = 0 then
+    let rdigits := digitsI B r
+    let shift := ddigits + p - rdigits
+    let r' := r * ((B ^ shift : Nat) : Int)
+    (Int.tdiv r' b, Int.tmod r' b, e - shift)
+  else
+    let ndigits := digitsI B q + ddigits
+    if ndigits < ddigits + p then
+      let shift := ddigits + p - ndigits
+      let q' := q * ((B ^ shift : Nat) : Int)
+      let r' := r * ((B ^ shift : Nat) : Int)
+      (q' + Int.tdiv r' b, Int.tmod r' b, e - shift)
+    else (q, r, e)
+
 /-- `Context::repr_div` -/
 def reprDiv (B : Nat) (m : Mode) (p : Nat) (lhs rhs : FRepr) : Except FPanic (Rounded FRepr) :=
   if p = 0 then .error .unlimitedPrecision
@@ -115,25 +135,11 @@ def reprDiv (B : Nat) (m : Mode) (p : Nat) (lhs rhs : FRepr) : Except FPanic (Ro
     let e := lhs.exp - rhs.exp
     if r = 0 then .ok (FRepr.new B q e, none)
     else
-      let ddigits := digitsI B rhs.signif
-      let (q, r, e) :=
-        if q = 0 then
-          let rdigits := digitsI B r
-          let shift := ddigits + p - rdigits
-          let r' := r * ((B ^ shift : Nat) : Int)
-          (Int.tdiv r' rhs.signif, Int.tmod r' rhs.signif, e - shift)
-        else
-          let ndigits := digitsI B q + ddigits
-          if ndigits < ddigits + p then
-            let shift := ddigits + p - ndigits
-            let q' := q * ((B ^ shift : Nat) : Int)
-            let r' := r * ((B ^ shift : Nat) : Int)
-            (q' + Int.tdiv r' rhs.signif, Int.tmod r' rhs.signif, e - shift)
-          else (q, r, e)
-      if r = 0 then .ok (FRepr.new B q e, none)
+      let t := divAlign B p rhs.signif q r e
+      if t.2.1 = 0 then .ok (FRepr.new B t.1 t.2.2, none)
       else
-        let adj := roundRatio m q r rhs.signif
-        .ok (FRepr.new B (q + rInt adj) e, some adj)
+        let adj := roundRatio m t.1 t.2.1 rhs.signif
+        .ok (FRepr.new B (t.1 + rInt adj) t.2.2, some adj)
 
 /-- `Context::div`: shrink an over-long dividend to `rhs.digits() + p` digits, then `repr_div` -/
 def ctxDiv (B : Nat) (m : Mode) (c : Coarse) (dub dlb : Int → Nat) (p : Nat) (lhs rhs : FRepr) :
@@ -154,32 +160,41 @@ def andThenFlag (e1 e2 : Option Rounding) : Option Rounding :=
   | some e => some e
   | none => e1
 
-/-- `Context::sqrt`: the significand is scaled by `shift = 2p − digits − ((exp − digits)&1)` so that the
-    exponent is even and the root has exactly `p` digits; `Exact` only if the integer remainder and
-    the discarded low digits are zero. -/
+/-- the scaling step of `Context::sqrt`: the significand is shifted by
+    `shift = 2p − digits − ((exp − digits)&1)` digits so that the exponent becomes even and the scaled
+    significand has `2p` or `2p−1` digits (the root then has exactly `p`); for `shift ≤ 0` the digits
+    below the scaling position are split off.  Returns `(signif, low, low_digits, exp / 2)`. -/
+def sqrtScale (B p : Nat) (x : FRepr) : Int × Int × Nat × Int :=
+  let digits : Int := x.digits B
+  let shift : Int := (p : Int) * 2 - digits - ((x.exp - digits) % 2)
+  let e := Int.tdiv (x.exp - shift) 2
+  if shift > 0 then (x.signif * ((B ^ shift.toNat : Nat) : Int), 0, 0, e)
+  else
+    let s := (-shift).toNat
+    let hl := splitDigits B x.signif s
+    (hl.1, hl.2, s, e)
+
+/-- the rounding step of `Context::sqrt`: integer square root with remainder (`UBig::sqrt_rem`), `Exact`
+    only if the remainder and the discarded low digits are zero, otherwise the mode table with the
+    half test `rem.cmp(root).then(4·low .cmp(B^low_digits))` (i.e. `√(signif + low/B^k)` vs `root + ½`). -/
+def sqrtRound (B : Nat) (m : Mode) (signif low : Int) (lowDigits : Nat) : Rounded Int :=
+  let root : Int := (Nat.sqrt signif.natAbs : Nat)
+  let rem : Int := signif.natAbs - root * root
+  if rem = 0 ∧ low = 0 then (root, none)
+  else
+    let test := (compare rem root).then (compare (low * 4) ((B ^ lowDigits : Nat) : Int))
+    let adj := roundLowPart m root .Positive test
+    (root + rInt adj, some adj)
+
+/-- `Context::sqrt` (as repaired by 92fc29e) -/
 def ctxSqrt (B : Nat) (m : Mode) (c : Coarse) (p : Nat) (x : FRepr) :
     Except FPanic (Rounded FRepr) :=
   if p = 0 then .error .unlimitedPrecision
   else if x.signif < 0 then .error .rootNegative
   else
-    let digits : Int := x.digits B
-    let shift : Int := (p : Int) * 2 - digits - ((x.exp - digits) % 2)
-    let (signif, low, lowDigits) : Int × Int × Nat :=
-      if shift > 0 then (x.signif * ((B ^ shift.toNat : Nat) : Int), 0, 0)
-      else
-        let s := (-shift).toNat
-        let hl := splitDigits B x.signif s
-        (hl.1, hl.2, s)
-    let root : Int := (Nat.sqrt signif.natAbs : Nat)
-    let rem : Int := signif.natAbs - root * root
-    let exp := Int.tdiv (x.exp - shift) 2
-    let res : Rounded Int :=
-      if rem = 0 ∧ low = 0 then (root, none)
-      else
-        let test := (compare rem root).then (compare (low * 4) ((B ^ lowDigits : Nat) : Int))
-        let adj := roundLowPart m root .Positive test
-        (root + rInt adj, some adj)
-    let v := FRepr.new B res.1 exp
+    let sc := sqrtScale B p x
+    let res := sqrtRound B m sc.1 sc.2.1 sc.2.2.1
+    let v := FRepr.new B res.1 sc.2.2.2
     let rr := reprRound B m c p v
     .ok (rr.1, andThenFlag res.2 rr.2)
 
